@@ -20,6 +20,9 @@ type C02Case struct {
 	Lab  []string       `json:"labels,omitempty"`
 	// Global: extra global arguments (log level, output format): stdout is the data channel whatever they are
 	Global []string `json:"global,omitempty"`
+	// OddFlag: a second observation with this flags line in front of the program — an upper-case spelling the
+	// tool refuses; should it ever compile, the leading group must still consist of the letters i and s only
+	OddFlag string `json:"odd_flag,omitempty"`
 }
 
 var c02Globals = [][]string{nil, nil, nil, nil, {"-l", "debug"}, {"-l", "trace"}, {"-l", "warn"}, {"--log-level", "info"}, {"-o", "github"}, {"-l", "trace", "-o", "github"}, {"-l", "error"}}
@@ -58,6 +61,10 @@ func genC02(t *rapid.T) C02Case {
 	}
 	if len(c.Global) > 0 {
 		c.Lab = append(c.Lab, "global:"+strings.Join(c.Global, " "))
+	}
+	c.OddFlag = rapid.SampledFrom([]string{"", "", "", "", "", "", "I", "S", "iS", "sI"}).Draw(t, "oddflag")
+	if c.OddFlag != "" {
+		c.Lab = append(c.Lab, "upper-case-flag-line-probed")
 	}
 	return c
 }
@@ -166,6 +173,17 @@ func checkC02(c C02Case) Outcome {
 	if err != nil {
 		out.HarnessError = "generated program does not resolve: " + err.Error()
 		return out
+	}
+	if c.OddFlag != "" {
+		p2 := *c.Prog
+		p2.Main = append([]ragen.Line{{K: ragen.KFlags, T: c.OddFlag}}, c.Prog.Main...)
+		if r2 := generateWith(&p2, c.Global...); r2.Exit == 0 && strings.HasPrefix(r2.Stdout, "(?") {
+			if j := strings.IndexByte(r2.Stdout, ')'); j > 0 && strings.ContainsAny(r2.Stdout[2:j], "IS") && strings.Trim(r2.Stdout[2:j], "abcdefghijklmnopqrstuvwxyzABCDEFGHIJKLMNOPQRSTUVWXYZ-") == "" {
+				out.Detail["program"], out.Detail["stdout"] = p2.MainText(), r2.Stdout
+				out.Violation = fmt.Sprintf("leading flag group %q has letters outside {i,s} (flags line `##!+ %s`)", r2.Stdout[:j+1], c.OddFlag)
+				return out
+			}
+		}
 	}
 	r := generateWith(c.Prog, c.Global...)
 	out.Detail["program"] = c.Prog.MainText()
